@@ -713,6 +713,28 @@ def unit_table(unit):
             agg.violation(V("table.getitem.cols", "wrong-columns", case, want, table_obs(res)))
         else:
             agg.outcomes["table-cols-ok"] += 1
+    # the positional system names (col<k>_) belong to UNNAMED columns only: asked of a table whose columns all carry proper names they
+    # name nothing - alone, inside a name tuple, in upper case, and after a row selection
+    if names and all(isinstance(x, str) and x and not x.lower().startswith("col") for x in names):
+        for k in range(len(names) + 1):
+            for spelled in (f"col{k}_", f"COL{k}_", f"Col{k}_"):
+                for form in ("single", "tuple", "after-row-slice", "2d"):
+                    agg.evals += 1; agg.transitions += 1; agg.compared += 1
+                    try:
+                        if form == "single":
+                            r_ = t[spelled]
+                        elif form == "tuple":
+                            r_ = t[names[0], spelled]
+                        elif form == "after-row-slice":
+                            r_ = t[0:nrows][spelled]
+                        else:
+                            r_ = t[0:nrows, (spelled,)]
+                    except Exception as e:
+                        r_ = e
+                    if isinstance(r_, Exception):
+                        agg.outcomes["missing-column"] += 1
+                    else:
+                        agg.violation(V("table.getitem.cols", "missing-column-accepted", dict(d, colkey=spelled, form=form, note="system name of a properly named column"), "error", repr(r_)[:60]))
     # single string key: the column itself
     for nm in universe:
         agg.evals += 1; agg.transitions += 1
